@@ -315,7 +315,9 @@ pub fn gen_cfg_for(prop: &str, rng: &mut Rng, thorough: bool) -> GenCfg {
 /// The C01/C02/C03 workload. Every solve is judged by O1; only issues of `prop` are reported by this run.
 pub fn run_end_to_end(run: &Run, prop: &'static str) {
     let thorough = !run.is_quick();
-    let cases: u64 = run.by_tier(900, 20_000);
+    // C01: rules that bind in few problem shapes only (route-level rules of multi jobs after an infeasible-space search ...) show
+    // up in a few solves per thousand, so its quick tier runs twice as many solves as C02 / C03
+    let cases: u64 = run.by_tier(if prop == "C01" { 1_800 } else { 900 }, 20_000);
     let max_gens = run.by_tier(40usize, 200usize);
     par_for(4, cases, &|| !run.has_time(), &|i| {
         let case_seed = mix(run.seed, i);
@@ -414,9 +416,30 @@ pub fn run_end_to_end(run: &Run, prop: &'static str) {
                         }
                     }
                 } else if res.report.is_clean() {
-                    if let Ok(parsed) = PProblem::parse(&gp.problem, &gp.matrices) {
+                    // jobs named in relations stay outside clusters: a tour of the clustered problem (shorter service inside a
+                    // cluster, commute instead of driving) is not a consistent source of relations, so they are taken from a
+                    // feasible tour of the same problem solved without clustering
+                    let source = if gp.has("clustering") {
+                        let mut base_gp = gp.clone();
+                        if let Some(plan) = base_gp.problem["plan"].as_object_mut() {
+                            plan.remove("clustering");
+                        }
+                        match read_problem(&base_gp) {
+                            ReadOutcome::Ok(p) => match solve_and_replay(p, &base_gp, &base_cfg) {
+                                CaseOutcome::Done(r) if r.report.is_clean() => Some(r),
+                                _ => None,
+                            },
+                            _ => None,
+                        }
+                    } else {
+                        Some(res)
+                    };
+                    if let (Some(res), Ok(parsed)) = (source, PProblem::parse(&gp.problem, &gp.matrices)) {
                         let rels = derive_relations(&mut rng, &parsed, &res.report);
                         if !rels.is_empty() {
+                            if gp.has("clustering") {
+                                run.observe("phase", "relations on top of clustering");
+                            }
                             let mut gp2 = gp.clone();
                             gp2.problem["plan"]["relations"] = Value::Array(rels.clone());
                             gp2.features.insert("relations".into());
